@@ -268,15 +268,19 @@ def h_start():
     sc = Scenario(0.1, ScenarioID())
     for i in H_IDS:
         sc.add_objects(spec.mk_lanelet(netgeo.lanelet_spec(i)))
-    return sc, (frozenset(), frozenset())     # (present, assigned)
+    sc._verif_shelf = {}                       # harness only: obstacle objects that were removed while assigned (kept for re-adding the SAME object)
+    return sc, (frozenset(), frozenset(), frozenset())     # (present, assigned, shelved)
 
 
 def h_enabled(model):
-    present, assigned = model
+    present, assigned, shelved = model
     ops = []
     for n in H_OBST:
         if n not in present:
             ops.append(["add", n])
+    for n in sorted(shelved):
+        if n not in present:
+            ops.append(["readd", n])          # the very object that was assigned and then removed (it still carries its lanelet assignment)
     if present:
         ops.append(["assign"])
     for n in sorted(present):
@@ -289,26 +293,35 @@ def h_enabled(model):
 
 def h_step(sc, model, op):
     P = pool()
-    present, assigned = set(model[0]), set(model[1])
+    present, assigned, shelved = set(model[0]), set(model[1]), set(model[2])
     k = op[0]
+
+    def shelve(n):
+        if n in assigned:
+            sc._verif_shelf[n] = sc.obstacle_by_id(P[n]["id"]); shelved.add(n)
     try:
         if k == "add":
             sc.add_objects(spec.mk_obstacle(P[op[1]])); present.add(op[1])
+        elif k == "readd":
+            sc.add_objects(sc._verif_shelf[op[1]]); present.add(op[1]); assigned.add(op[1])
         elif k == "assign":
             sc.assign_obstacles_to_lanelets(); assigned |= present
         elif k == "assign_one":
             sc.assign_obstacles_to_lanelets(obstacle_ids={P[op[1]]["id"]}); assigned.add(op[1])
         elif k == "remove":
+            shelve(op[1])
             present.discard(op[1]); assigned.discard(op[1])
             sc.remove_obstacle(sc.obstacle_by_id(P[op[1]]["id"]))
         elif k == "remove_list":
+            objs = [sc.obstacle_by_id(P[n]["id"]) for n in op[1]]
             for n in op[1]:
+                shelve(n)
                 present.discard(n); assigned.discard(n)
-            sc.remove_obstacle([sc.obstacle_by_id(P[n]["id"]) for n in op[1]])
+            sc.remove_obstacle(objs)
         obs = ("ok", None)
     except Exception as e:
         obs = ("raises:" + type(e).__name__, str(e)[:200])
-    return obs, (frozenset(present), frozenset(assigned))
+    return obs, (frozenset(present), frozenset(assigned), frozenset(shelved))
 
 
 def h_canon(sc, model):
@@ -328,7 +341,7 @@ def h_check(sc, model, model2, op, obs, pre):
         role = P[op[1] if isinstance(op[1], str) else op[1][0]]["role"] if len(op) > 1 else "-"
         out.append((f"C07|history|{op[0]}|{role}|{'remove-' if op[0].startswith('remove') else ''}{obs[0]}", f"{op}: {obs[1]}"))
         return out
-    present, assigned = model2
+    present, assigned, _shelved = model2
     got_present = sorted(o.obstacle_id for o in sc.obstacles)
     if got_present != sorted(P[n]["id"] for n in present):
         out.append((f"C07|history|{op[0]}|contained-obstacles-differ", f"{got_present}"))
@@ -344,6 +357,45 @@ def h_check(sc, model, model2, op, obs, pre):
         if gone:
             out.append((f"C07|history|{op[0]}|registry|stale-after-remove", f"lanelet {lid} still lists removed obstacles {sorted(gone)}"))
     return out
+
+
+def two_scenarios(ids, names_a, names_b, res):
+    """two lanelet networks made from the SAME lanelet objects (create_from_lanelet_list copies them), each in its own scenario: what is
+    assigned in one scenario must not show up in the registries of the other"""
+    from commonroad.scenario.scenario import Scenario, ScenarioID
+    from commonroad.scenario.lanelet import LaneletNetwork
+    P = pool()
+    case = {"k": "two-scenarios", "ids": list(ids), "a": list(names_a), "b": list(names_b)}
+    res.evals += 1; res.transitions += 2; res.nontrivial += 1; res.states += 1
+    try:
+        lanelets = [spec.mk_lanelet(netgeo.lanelet_spec(i)) for i in ids]
+        scs = []
+        for names in (names_a, names_b):
+            sc = Scenario(0.1, ScenarioID())
+            sc.add_objects(LaneletNetwork.create_from_lanelet_list(lanelets))
+            for n in names:
+                sc.add_objects(spec.mk_obstacle(P[n]))
+            scs.append(sc)
+        scs[0].assign_obstacles_to_lanelets()
+        # B has not been assigned yet: its registries must be empty
+        leaked = {lid: v for lid, v in registries(scs[1]).items() if v[0] or any(v[1].values())}
+        if leaked:
+            res.violation("C07|two-scenarios|registry-of-the-other-scenario-changed", f"{case}: scenario B lists {leaked} before anything was assigned in it", case)
+            return
+        scs[1].assign_obstacles_to_lanelets()
+        for sc, names, tag in ((scs[0], names_a, "A"), (scs[1], names_b, "B")):
+            sub = Result()
+            check_assigned(sc, list(ids), {n: P[n] for n in names}, "two-scenarios", sub, case)
+            for s_, d_, _ in sub.violations:
+                res.violation(s_, f"scenario {tag}: {d_}", case)
+            own = {P[n]["id"] for n in names}
+            for lid, (st, dy) in registries(sc).items():
+                foreign = (set(st) | {i for v in dy.values() for i in v}) - own
+                if foreign:
+                    res.violation("C07|two-scenarios|registry-lists-obstacles-of-the-other-scenario", f"{case}: scenario {tag}, lanelet {lid}: {sorted(foreign)}", case)
+    except Exception as e:
+        res.violation(f"C07|two-scenarios|raises:{type(e).__name__}", f"{case}: {e!r}", case)
+    res.outcomes["two-scenarios"] += 1
 
 
 def describe(tier):
@@ -366,8 +418,9 @@ def units(tier):
                 if tier == "quick" and r != "assign" and j % 3:
                     continue
                 u.append({"k": "inputs", "ids": ids, "obstacles": list(pr), "route": r})
-    for op in h_enabled((frozenset(), frozenset())):
+    for op in h_enabled((frozenset(), frozenset(), frozenset())):
         u.append({"k": "history", "first": op, "depth": 4 if tier == "quick" else 7})
+    u.append({"k": "two-scenarios"})
     return u
 
 
@@ -380,6 +433,11 @@ def run_unit(unit, tier):
         finally:
             import shutil
             shutil.rmtree(d, ignore_errors=True)
+        res.sample(unit, 1)
+    elif unit["k"] == "two-scenarios":
+        for ids in ([1, 6], [1, 5]):
+            for a, b in ((["s-rect-straddle", "d-rect-traj"], ["s-rect-inside"]), (["d-rect-traj"], ["d-rect-turn", "s-rect-straddle"]), (["s-rect-straddle"], [])):
+                two_scenarios(ids, a, b, res)
         res.sample(unit, 1)
     else:
         live, model = h_start()
@@ -403,6 +461,9 @@ def replay(case):
             out += h_check(live, model, model2, op, obs, None)
             model = model2
         return out
+    if case.get("k") == "two-scenarios":
+        two_scenarios(case["ids"], case["a"], case["b"], res)
+        return [(s, d) for s, d, _ in res.violations]
     d = tempfile.mkdtemp(prefix="c07_")
     run_inputs(case["ids"], case["obstacles"], case["route"], res, d)
     import shutil
